@@ -269,7 +269,7 @@ func fbChildPoolCase(kind string, body []byte, useLedger bool) (word string, n i
 			word, detail = "panic", strings.ReplaceAll(fmt.Sprint(p), "\n", " ")
 		}
 	}()
-	total := int64(8<<20) + min(int64(1024*len(body)), 256<<20)
+	total := fbStreamBudgetOf(len(body))
 	budget := membudget.New(total)
 	m := &fbPoolMeter{entries: map[uintptr]*fbLedgerEntry{}}
 	m.base = fbLiveHeap()
